@@ -563,7 +563,11 @@ func (s *verifSession) openLayer(l *verifLayer) *verifOpen {
 	out.Count("open-mem-" + res(o.memErr))
 	out.Count("open-db-" + res(o.dbErr))
 	if (o.memErr == nil) != (o.dbErr == nil) {
-		out.Fail("accept-reject-differ"+verifClassSuffix(l), fmt.Sprintf("layer %s [%s]: memErr=%v dbErr=%v", tag, l.label, o.memErr, o.dbErr))
+		sig := "accept-reject-differ" + verifClassSuffix(l)
+		if l.class == "cand" && len(l.candidates) > 0 {
+			sig = l.candidates[0] // every disagreement of a candidate layer carries the candidate's name
+		}
+		out.Fail(sig, fmt.Sprintf("layer %s [%s]: memErr=%v dbErr=%v", tag, l.label, o.memErr, o.dbErr))
 	}
 	s.open[tag] = o
 	return o
